@@ -393,17 +393,37 @@ def fmt(ctx: Any) -> List[Ob]:
     tx = next((f_ for f_ in prog.functions.values() if any(isinstance(c_, ast.Call) and call_name(c_) == 'sendto' for c_ in walk_local_ordered(f_.node))), None)
     if tx is None:
         raise AnalysisError('anchor vanished: the function that hands datagrams to a socket (sendto)')
-    p_addr = next((p_ for p_ in tx.params if p_ == 'addr' or 'addr' in p_), None)
-    p_port = next((p_ for p_ in tx.params if p_ == 'port' or p_.endswith('_port')), None)
-    if p_addr is None or p_port is None:
-        raise AnalysisError('anchor vanished: address / port parameters of the transmit primitive')
     grp4, grp6, mport = prog.const('zeroconf.const', '_MDNS_ADDR'), prog.const('zeroconf.const', '_MDNS_ADDR6'), prog.const('zeroconf.const', '_MDNS_PORT')
+    # where the destination tuple is built: in the primitive itself, or -- when the primitive is handed a ready tuple -- in its caller
+    st_call = next(c_ for c_ in walk_local_ordered(tx.node) if isinstance(c_, ast.Call) and call_name(c_) == 'sendto')
+    builder, dest_name = tx, None
+    if len(st_call.args) >= 2 and isinstance(st_call.args[1], ast.Name) and st_call.args[1].id in tx.params:
+        pi = tx.params.index(st_call.args[1].id)
+        callers = [s_ for s_ in ctx.cg.callers_of(tx)]
+        if len({s_.caller.full for s_ in callers}) != 1:
+            raise AnalysisError('anchor vanished: the one caller that builds the destination handed to the transmit primitive')
+        builder = callers[0].caller
+        arg = callers[0].node.args[pi] if len(callers[0].node.args) > pi else None
+        dest_name = arg.id if isinstance(arg, ast.Name) else None
+        if dest_name is None:
+            raise AnalysisError('anchor vanished: the destination handed to the transmit primitive is not a local of its caller')
+    p_addr = next((p_ for p_ in builder.params if p_ == 'addr' or 'addr' in p_), None)
+    p_port = next((p_ for p_ in builder.params if p_ == 'port' or p_.endswith('_port')), None)
+    if p_addr is None or p_port is None:
+        raise AnalysisError('anchor vanished: address / port parameters of the routine that builds the destination')
 
     def eff_tx(node: Any, evl: Any) -> List[Any]:
         out_ = []
-        for c_ in fd.node_calls(node, evl):
-            if call_name(c_) == 'sendto' and len(c_.args) >= 2 and isinstance(c_.args[1], ast.Tuple) and len(c_.args[1].elts) >= 2:
-                a_, p__ = evl.ev(c_.args[1].elts[0]), evl.ev(c_.args[1].elts[1])
+        tuples = []
+        if dest_name is None:
+            tuples = [c_.args[1] for c_ in fd.node_calls(node, evl) if call_name(c_) == 'sendto' and len(c_.args) >= 2 and isinstance(c_.args[1], ast.Tuple)]
+        elif node.kind == 'stmt' and isinstance(node.ast, (ast.Assign, ast.AnnAssign)):
+            tg = node.ast.targets[0] if isinstance(node.ast, ast.Assign) else node.ast.target
+            if isinstance(tg, ast.Name) and tg.id == dest_name and isinstance(node.ast.value, ast.Tuple):
+                tuples = [node.ast.value]
+        for tp in tuples:
+            if len(tp.elts) >= 2:
+                a_, p__ = evl.ev(tp.elts[0]), evl.ev(tp.elts[1])
                 out_.append(('DST', 'UNKNOWN' if a_ is fd.UNKNOWN else a_, 'UNKNOWN' if p__ is fd.UNKNOWN else p__))
         return out_
 
@@ -411,10 +431,33 @@ def fmt(ctx: Any) -> List[Ob]:
         for v6 in (True, False):
             for port_v in (0, 40000):
                 atoms_tx = {p_addr: '192.0.2.7' if given else None, p_port: port_v, '.is_ipv6': v6, 'can_send_to()': True, 'log_debug': False, 'v6_flow_scope': ()}
-                oc_tx, und_tx = traces(ctx, tx, atoms_tx, eff_tx)
+                if builder is tx:
+                    oc_tx, und_tx = traces(ctx, tx, atoms_tx, eff_tx)
+                else:
+                    # one socket: the loop over the transports runs once
+                    oc_tx, und_tx = traces(ctx, builder, atoms_tx, eff_tx, loop_bound=1, for_iter=lambda n, e: True if n.kind == 'for' and any(isinstance(x, ast.Name) and x.id == dest_name for st_ in ast.walk(n.ast) for x in ([st_.targets[0]] if isinstance(st_, ast.Assign) else [])) else None)
                 dst = {x[1:] for t in oc_tx for x in t if isinstance(x, tuple) and x[0] == 'DST'}
                 want_dst = ('192.0.2.7' if given else (grp6 if v6 else grp4), port_v or mport)
-                obs.append(ob(R, tx, f'address {"given" if given else "not given"}, {"IPv6" if v6 else "IPv4"} socket, port {port_v or "not given"}', f'the datagram is handed to the socket for {want_dst}', dst == {want_dst}, f'destinations on the feasible paths: {sorted(map(str, dst))}; undecided {und_tx}'))
+                obs.append(ob(R, builder, f'address {"given" if given else "not given"}, {"IPv6" if v6 else "IPv4"} socket, port {port_v or "not given"}', f'the datagram is handed to the socket for {want_dst}', dst == {want_dst}, f'destinations on the feasible paths: {sorted(map(str, dst))}; undecided {und_tx}'))
+    # flow info and scope of an IPv6 destination belong to the socket the datagram leaves through: a value read from one
+    # socket (`sock_name`) is not kept in a variable that lives across the loop over the sockets -- the second socket on
+    # another link would send to the first one's scope
+    for g_ in {tx, builder, prog.func('zeroconf._core.Zeroconf.async_send')}:
+        for lp in [x for x in walk_local_ordered(g_.node) if isinstance(x, ast.For) and isinstance(x.target, ast.Name)]:
+            derived = {lp.target.id}
+            changed = True
+            while changed:
+                changed = False
+                for st_ in ast.walk(lp):
+                    if isinstance(st_, ast.Assign):
+                        names_ = {t.id for tt in st_.targets for t in ast.walk(tt) if isinstance(t, ast.Name)}
+                        if any(isinstance(x, ast.Name) and x.id in derived for x in ast.walk(st_.value)) and not names_ <= derived:
+                            derived |= names_
+                            changed = True
+            outer_defs = {a_ for a_ in g_.params} | {t.id for st_ in walk_local_ordered(g_.node) if isinstance(st_, (ast.Assign, ast.AnnAssign)) and not any(st_ is y for y in ast.walk(lp)) for t in ast.walk(st_.targets[0] if isinstance(st_, ast.Assign) else st_.target) if isinstance(t, ast.Name)}
+            sticky = sorted(v for v in derived - {lp.target.id} if v in outer_defs and any(isinstance(i_, ast.If) and any(isinstance(x, ast.Name) and x.id == v for x in ast.walk(i_.test)) and any(isinstance(y, ast.Assign) and any(isinstance(t, ast.Name) and t.id == v for tt in y.targets for t in ast.walk(tt)) for y in ast.walk(i_)) for i_ in ast.walk(lp)))
+            if 'sock_name' in ast.dump(lp) or sticky:
+                obs.append(ob(R, g_, lp, 'what is read from one socket (flow info, scope id) is used for that socket only: it is not parked in a variable that outlives the trip of the loop over the sockets', not sticky, f'`{sticky[0]}` is set from the socket of one trip under a test of itself and lives on into the next' if sticky else ''))
     # `on the receiving socket`: when a transport is handed to the sender, the datagrams leave through that transport and no other
     snd = prog.func('zeroconf._core.Zeroconf.async_send')
     p_tr = next((p_ for p_ in snd.params if p_ == 'transport'), None)
@@ -425,6 +468,11 @@ def fmt(ctx: Any) -> List[Ob]:
     ok_tr, why_tr = False, 'no loop that hands the datagrams to the transmit primitive'
     for lp in loops_tx:
         it = lp.iter
+        # (a list prepared by an earlier loop over the transports stands for those transports)
+        if isinstance(it, ast.Name):
+            feeders = [l2 for l2 in walk_local_ordered(snd.node) if isinstance(l2, ast.For) and l2 is not lp and any(isinstance(c_, ast.Call) and call_name(c_) == 'append' and isinstance(c_.func, ast.Attribute) and norm(c_.func.value) == it.id for c_ in ast.walk(l2))]
+            if len(feeders) == 1:
+                it = feeders[0].iter
         for given, addr_v in ((True, '192.0.2.7'), (True, None), (False, None)):
             v_ = fd.Evaluator(prog, snd.module, {p_tr: 'RECEIVING' if given else None, 'addr': addr_v, f'{snd.params[0]}.engine.senders': ['S1', 'S2']}).ev(expand_(snd, it))
             want_v = ['RECEIVING'] if given else ['S1', 'S2']
